@@ -38,7 +38,7 @@ def run(sim):
     nd = sim.draw_int(2, 6, "ndeferreds")
     nops = sim.draw_choice([4, 6, 10, 16, 20, 25, 25], "nops")
     w_fire = sim.draw_choice([3, 1, 6], "w_fire")
-    avoid = sim.draw_bool(0.5, "avoid_pause_while_waiting")
+    avoid = sim.draw_bool(0.15, "avoid_pause_while_waiting")
     w_def = sim.draw_choice([4, 2, 7], "w_returns_deferred")
     w_pause = sim.draw_choice([2, 0, 4], "w_pause")
     sim.config = {"ndeferreds": nd, "nops": nops, "avoid_pause_while_waiting": avoid, "w_returns_deferred": w_def, "w_pause": w_pause, "w_fire": w_fire}
